@@ -12,7 +12,7 @@ import (
 )
 
 func init() {
-	props["C17"] = &propDef{run: runC17, explanation: "Partial. Decided statically: (P1) ResolveDocument succeeds only across the true edge of strings.HasPrefix(did, namespace + \":\") with the handler's own namespace field — the delimiter is part of the gate; (D1) no function reachable from VDR.Create / Client.CreateDID / the request builders iterates a map with an order-sensitive effect (append/indexed store that survives the loop without a sort, string accumulation, first-match return): DID creation cannot depend on Go's map iteration order; (G1) parseInitialState accepts only on the false edge of b64(JCS(decoded create request)) != supplied initial state, where the request is decoded from the base64url-decoded parameter; ParseDID splits the long form at the last ':'; resolveRequestWithInitialState accepts only across Parse(namespace, initial bytes) (full non-batch validation, C07) and the false edge of suffix != parsed suffix; short-form DIDs (no create request) and DIDs with fewer than three parts are refused; (P2) unpublished transformation info and GetCreateResult wiring. Not decided: that the document read back equals the document created (did-go parsing, behavioural). ProcessOperation: the initial state of the returned DID is b64url(JCS(request bytes)) and its suffix the parsed operation's. (T1) creation maps each verification relationship to the key purpose of the same name (switch or table form). (D2) random key generation in the creation call tree runs only on the edge 'the key option is absent'. The parser's acceptance rules (C07) run inside this check; no equivalent id of an unpublished document carries the initial state."}
+	props["C17"] = &propDef{run: runC17, explanation: "Partial. Decided statically: (P1) ResolveDocument succeeds only across the true edge of strings.HasPrefix(did, namespace + \":\") with the handler's own namespace field — the delimiter is part of the gate; (D1) no function reachable from VDR.Create / Client.CreateDID / the request builders iterates a map with an order-sensitive effect (append/indexed store that survives the loop without a sort, string accumulation, first-match return): DID creation cannot depend on Go's map iteration order; (G1) parseInitialState accepts only on the false edge of b64(JCS(decoded create request)) != supplied initial state, where the request is decoded from the base64url-decoded parameter; ParseDID splits the long form at the last ':'; resolveRequestWithInitialState accepts only across Parse(namespace, initial bytes) (full non-batch validation, C07) and the false edge of suffix != parsed suffix; short-form DIDs (no create request) and DIDs with fewer than three parts are refused; (P2) unpublished transformation info and GetCreateResult wiring. Not decided: that the document read back equals the document created (did-go parsing, behavioural). ProcessOperation: the initial state of the returned DID is b64url(JCS(request bytes)) and its suffix the parsed operation's. (T1) creation maps each verification relationship to the key purpose of the same name (switch or table form). (D2) random key generation in the creation call tree runs only on the edge 'the key option is absent'. The parser's acceptance rules (C07) run inside this check; no equivalent id of an unpublished document carries the initial state. The requested suffix is the last segment verbatim; the raw-document builder rules of C08 and the published-ids rule run here too."}
 }
 
 // mapRangeOrderEffects reports order-sensitive effects of map iterations in f.
@@ -285,6 +285,63 @@ func runC17(c *Ctx) {
 	}
 	c.Min("C17.D2", 1)
 
+	// ---- D3 the namespace the document handler serves is the configured method: vdr.New hands dochandler.New
+	// "did:" + the field that WithDIDMethod sets, read after the options were applied (a namespace computed before —
+	// in the literal, from the default — stays the default's whatever the caller configured)
+	{
+		const pVDR = "vdr/sidetreelongform"
+		nw := c.Fn(pVDR, "New")
+		dhNew := c.Fn(pVDR+"/dochandler", "New")
+		methodField := ""
+		if wm := c.Fn(pVDR, "WithDIDMethod"); wm != nil {
+			for _, an := range wm.AnonFuncs {
+				forEachInstr(an, func(in ssa.Instruction) {
+					if st, ok := in.(*ssa.Store); ok {
+						if fa, isFA := st.Addr.(*ssa.FieldAddr); isFA && isStringType(st.Val.Type()) {
+							methodField = fieldName(fa.X.Type(), fa.Field)
+						}
+					}
+				})
+			}
+		}
+		if nw == nil || dhNew == nil || methodField == "" {
+			c.Unresolved("C17.D3", "sidetreelongform.New / dochandler.New / WithDIDMethod")
+		} else {
+			c.Analysed(nw)
+			okNS, detail := false, ""
+			for _, cl := range callsTo(nw, dhNew) {
+				cf := c.concatForm(cl.Call.Args[0], nil)
+				detail = cf
+				parts := strings.Split(cf, " ++ ")
+				if len(parts) != 2 || parts[0] != `"did:"` || !strings.HasSuffix(parts[1], "."+methodField) {
+					continue
+				}
+				// the field is read after the option loop
+				after := false
+				loops := naturalLoops(nw)
+				for v := range backSlice(cl.Call.Args[0]) {
+					ld, isLd := v.(*ssa.UnOp)
+					if !isLd || ld.Op != token.MUL {
+						continue
+					}
+					fa, isFA := ld.X.(*ssa.FieldAddr)
+					if !isFA || fieldName(fa.X.Type(), fa.Field) != methodField {
+						continue
+					}
+					after = len(loops) > 0
+					for _, l := range loops {
+						if l.blocks[ld.Block()] || !l.header.Dominates(ld.Block()) {
+							after = false
+						}
+					}
+				}
+				okNS = after
+			}
+			c.Check("C17.D3", "New:namespace-is-did:configured-method", okNS, nw.Pos(), fmt.Sprintf("dochandler.New receives \"did:\" + the %s field, read after the options were applied (receives %s)", methodField, detail))
+		}
+	}
+	c.Min("C17.D3", 1)
+
 	// ---- G1 initial state / suffix / short form
 	pis := c.Fn(pParser, "parseInitialState")
 	parseDID := c.Method(pParser, "Parser", "ParseDID")
@@ -385,6 +442,22 @@ func runC17(c *Ctx) {
 			if len(a) == 4 && strings.Contains(c.Path(a[0], nil), ".ParseDID[") && strings.Contains(c.Path(a[1], nil), "$1") && strings.HasSuffix(c.Path(a[2], nil), "#1") {
 				okArgs = true
 			}
+		}
+		// the suffix that is compared is the text of the DID's last segment itself: a normalised (decoded and re-encoded,
+		// trimmed, case-folded) segment makes several spellings of a DID resolve — the suffix would no longer be
+		// tamper-evident character by character
+		if gs := c.Fn("vdr/sidetreelongform/dochandler", "getSuffix"); gs != nil {
+			c.Analysed(gs)
+			okS := len(successReturns(gs)) > 0
+			var got []string
+			for _, r := range successReturns(gs) {
+				p := c.Path(returnedValue(r, 0), nil)
+				got = append(got, p)
+				if !afterLastColon.MatchString(p) {
+					okS = false
+				}
+			}
+			c.Check("C17.G1", "getSuffix:last-segment-verbatim", okS, gs.Pos(), fmt.Sprintf("the suffix is the text after the last ':' of the short-form DID, unchanged (returns %v)", got))
 		}
 		c.Check("C17.G1", "ResolveDocument:hands-suffix-did-and-initial-state", okArgs, resolve.Pos(), "the suffix (from the parsed short form), the DID and the decoded create request flow into the resolution step")
 		c.CheckGuard("C17.G1", "ResolveDocument:requires-resolution-step", resolve, nil, callTo("resolveRequestWithInitialState", rr))
@@ -521,6 +594,7 @@ func runC17(c *Ctx) {
 		c.phiEdgeLive = nil
 		shortID := true
 		c.equivalentIDsShortForm("C17.P2")
+		c.publishedIDsRule("C17.P2")
 		c.Check("C17.P2", "unpublished:id=ns:suffix:initial-state", okID, f.Pos(), "with an initial state the document id is \"<ns>:<suffix>:<initial state>\"")
 		c.Check("C17.P2", "unpublished:equivalentId=ns:suffix", okEq && shortID, f.Pos(), "the short form \"<ns>:<suffix>\" is listed as equivalent id")
 	}
@@ -642,6 +716,12 @@ func runC17(c *Ctx) {
 	// a long-form DID is resolved by handing its initial state to the operation parser: what the parser accepts (and
 	// the limits it applies, each to the thing it is defined on) is part of "every DID Create hands out resolves"
 	runC07(c)
+	// "resolves to a document equivalent to the one supplied": the document Create encodes into the initial state carries
+	// every member of the supplied one (the raw-document builders of C08)
+	c.docBytesRule("C08.P3")
+	c.rawServiceRule("C08.P3")
+	// … and the resolved document carries keys and services alike: both transformer steps run on every accepting path
+	c.transformStepsRule("C18.P1")
 }
 
 // condsOf: branch conditions (path=truth) on the single-predecessor dominator chain of b.
@@ -775,4 +855,93 @@ func (c *Ctx) canonCond(cond ssa.Value, truth bool) string {
 		return fmt.Sprintf("(%s %s %s)=true", l, op.String(), r)
 	}
 	return fmt.Sprintf("%s=%v", c.Path(cond, c.condEnv), truth)
+}
+
+// publishedIDsRule: for a published document the canonical id is reported always, and it is always one of the equivalent
+// ids (the first): both members are stored unconditionally, and the canonical id enters the equivalent-id list
+// unconditionally — whatever the canonical reference is.
+func (c *Ctx) publishedIDsRule(rule string) {
+	f := c.Fn("docutil", "GetTransformationInfoForPublished")
+	if f == nil {
+		c.Unresolved(rule, "docutil.GetTransformationInfoForPublished")
+		return
+	}
+	c.Analysed(f)
+	strip := func(v ssa.Value) ssa.Value {
+		if mi, ok := v.(*ssa.MakeInterface); ok {
+			return mi.X
+		}
+		return v
+	}
+	var canon, eq ssa.Value
+	var bad []string
+	forEachInstr(f, func(in ssa.Instruction) {
+		mu, ok := in.(*ssa.MapUpdate)
+		if !ok {
+			return
+		}
+		k := c.Path(mu.Key, nil)
+		if k != `"canonicalId"` && k != `"equivalentId"` {
+			return
+		}
+		if conds := dropLoopExits(c.condsOf(mu.Block())); len(conds) > 0 {
+			bad = append(bad, fmt.Sprintf("%s stored only under %v", k, conds))
+		}
+		if k == `"canonicalId"` {
+			canon = strip(mu.Value)
+		} else {
+			eq = strip(mu.Value)
+		}
+	})
+	if canon == nil || eq == nil {
+		c.Check(rule, "published:canonical-id-is-an-equivalent-id", false, f.Pos(), "canonicalId / equivalentId members not found")
+		return
+	}
+	// where the canonical id enters a []string that flows into the equivalent ids
+	entered := false
+	cp := c.Path(canon, nil)
+	for v := range backSlice(eq) {
+		st, isSt := v.(ssa.Instruction)
+		_ = st
+		_ = isSt
+		al, isAl := v.(*ssa.Alloc)
+		if !isAl {
+			continue
+		}
+		if _, isArr := al.Type().Underlying().(*types.Pointer).Elem().Underlying().(*types.Array); !isArr {
+			continue
+		}
+		for _, r := range *al.Referrers() {
+			ia, isIA := r.(*ssa.IndexAddr)
+			if !isIA {
+				continue
+			}
+			for _, rr := range *ia.Referrers() {
+				if s2, isS := rr.(*ssa.Store); isS && c.Path(s2.Val, nil) == cp {
+					if conds := dropLoopExits(c.condsOf(s2.Block())); len(conds) == 0 {
+						entered = true
+					} else {
+						bad = append(bad, fmt.Sprintf("the canonical id enters the equivalent ids only under %v", conds))
+					}
+				}
+			}
+		}
+	}
+	if !entered && len(bad) == 0 {
+		bad = append(bad, "the canonical id does not enter the equivalent ids")
+	}
+	c.Check(rule, "published:canonical-id-is-an-equivalent-id", entered && len(bad) == 0, f.Pos(), "for a published document canonicalId and equivalentId are always reported and the canonical id is always an equivalent id", bad...)
+}
+
+var loopExitCond = regexp.MustCompile(`^(\(len\(.*\) <= ι\)=true|\(ι < len\(.*\)\)=false|\(ι >= len\(.*\)\)=true|next\(range\(.*\)\)#0=false)$`)
+
+// dropLoopExits removes the conditions that only say "an earlier loop has run to its end".
+func dropLoopExits(conds []string) []string {
+	var out []string
+	for _, cnd := range conds {
+		if !loopExitCond.MatchString(cnd) {
+			out = append(out, cnd)
+		}
+	}
+	return out
 }
